@@ -130,6 +130,12 @@ add("C12", "exploration",
     "Frames stay within the configured size limit and rate limit (both raised); rejections are counted, not matched to frames (a NOTICE does not name its frame); reuses C11's generators and reference validator for what a frame denotes.",
     "DESIGN.md section 4, C12")
 
+add("C13", "exploration",
+    "runtime monitoring: goroutine-leak monitor (runtime.Stack attribution by creating frame), registry/gauge conservation and a bounded-progress watchdog with parked-goroutine witness over seeded handler compositions x histories x cut points x endings; stalled raw-TCP WebSocket peer for the send-timeout clause; race detector",
+    "Seeded compositions (default, cache, router, SQLite, merges nested once; 0-5 of all provided middlewares incl. Prometheus and NIP-11 chains) serve a seeded history that is cut at a seeded point by cancel (peer draining or stalled) or inbound close; ServeNostr must return within the bound (witness: a goroutine parked in mocrelay code), no goroutine started by mocrelay code during the session may survive, router registries and Prometheus gauges must be back at their previous values; a raw TCP peer that finishes the WebSocket handshake and never reads must be dropped within 50 x send timeout for every send-timeout x ping-interval (incl. disabled) x start-delay combination. Held on the sessions/compositions counted in the evidence." + RACE,
+    "Liveness is restated as bounded progress on an otherwise idle process (sessions run one at a time so that goroutines can be attributed); the WebSocket clause is judged in wall-clock time with a 50x margin (the property itself is about time).",
+    "DESIGN.md section 4, C13")
+
 NOT_YET = "check not built yet in this revision (work in progress; see DESIGN.md)"
 
 
